@@ -34,7 +34,10 @@ import (
 //	from_json_exc | ctor_exc | encode_exc: {type, msg}   exception of that stage
 //	json: "<text>"                       json.dumps(obj, cls=JSONEncoder) — what a user of the SDK writes
 //	py_types: {field: type name}         (roundtrip/default) Python type of every attribute of the object
-const pyDriverSrc = `import sys, json, importlib
+//	shape: tree                          (roundtrip/default) the object graph with JSON values abstracted:
+//	                                     instance of a generated class -> {"$class": name, "fields": {attr: tree}},
+//	                                     dict -> {"$dict": {key: tree}}, list -> [tree], anything else -> its type name
+const pyDriverSrc = `import sys, json, importlib, enum
 
 root = sys.argv[1]
 sys.path.insert(0, root)
@@ -58,6 +61,20 @@ def load(unit, pkg):
                 raise
             _cache[key] = (None, None, describe(e))
     return _cache[key]
+
+
+def shape(v, depth=0):
+    if depth > 40:
+        return "..."
+    if isinstance(v, dict):
+        return {"$dict": {str(k): shape(x, depth + 1) for k, x in v.items()}}
+    if isinstance(v, (list, tuple)):
+        return [shape(x, depth + 1) for x in v]
+    if isinstance(v, enum.Enum):
+        return "enum:" + type(v).__name__
+    if hasattr(v, "__dict__") and type(v).__module__ not in ("builtins",):
+        return {"$class": type(v).__name__, "fields": {k: shape(x, depth + 1) for k, x in vars(v).items()}}
+    return type(v).__name__
 
 
 def types_of(obj):
@@ -99,6 +116,10 @@ def handle(req):
     else:
         return {"error": "unknown op " + str(op)}
     resp["py_types"] = types_of(obj)
+    try:
+        resp["shape"] = shape(obj)
+    except Exception as e:
+        resp["shape_error"] = type(e).__name__ + ": " + str(e)
     try:
         resp["json"] = json.dumps(obj, cls=enc)
     except Exception as e:
